@@ -34,11 +34,16 @@ TLog == ndJsonDeserialize(IOEnv.TRACE_FILE)
 
 NoAct == Act("", "", "", 0, 0, 0)
 
-Visible(act, e) ==
-  /\ act.a = e.a /\ act.r = e.r /\ act.i = e.i /\ act.h = e.h /\ act.s = e.s
-  /\ (e.ad = 0 \/ act.ad = e.ad)
+(* the recorder numbers addresses in the order in which it first sees them: an    *)
+(* address it did not write down is one seen before or the next new one            *)
+TopLabel(S) == LET used == {S.addr[x] : x \in 1..Len(S.addr)} \cup {0}
+               IN CHOOSE m \in used : \A n \in used : n <= m
 
-MatchingActs(S, e) == {act \in Acts(S, 0, NoAct) : Visible(act, e)}
+Visible(S, act, e) ==
+  /\ act.a = e.a /\ act.r = e.r /\ act.i = e.i /\ act.h = e.h /\ act.s = e.s
+  /\ IF e.ad = 0 THEN act.ad <= TopLabel(S) + 1 ELSE act.ad = e.ad
+
+MatchingActs(S, e) == {act \in Acts(S, 0, NoAct) : Visible(S, act, e)}
 
 (* sets of garbage that may already have been reclaimed                    *)
 Closed(S, G) ==
